@@ -82,6 +82,11 @@ func rulePolicySync(c *Ctx, rule string) {
 			continue
 		}
 		seq, ok := callSequence(c, fn, 0)
+		if ok {
+			if pos := orderOf(seq, h.order...); pos[0] < 0 || pos[1] < 0 || pos[2] < 0 {
+				ok = false // the syncs sit in a branching helper: decide by paths
+			}
+		}
 		if !ok {
 			// branching handler: decide by paths. Every step lies on every path to a return, and each step is preceded by
 			// the one before it.
